@@ -35,4 +35,13 @@ CANARIES = [
          edits=[(EP, 'Self::new(inner, ConnectionOrigin::Outbound)', 'Self::new(inner, ConnectionOrigin::Inbound)')]),
     dict(id='t-listener-single-certificate', unit=U, what='the listener presents one certificate whatever name the hello asks for', expect=['EndpointConfigBuilder::server_config::certificate_only_for_a_known_name'],
          edits=[(CFG, '.with_cert_resolver(Arc::new(server_cert_resolver));', '.with_single_cert(Vec::new(), pkcs8_der.clone_key())?;')]),
+    dict(id='k-pinned-dial-default-transport', unit='tls_config', what='a dial that names an identity runs with quinn\'s default transport parameters', expect=['EndpointConfig::client_config_with_expected_server_identity::keeps_the_transport_configuration'],
+         edits=[('crates/anemo/src/config.rs', """        client.transport_config(self.transport_config.clone());
+        client
+    }
+
+    #[cfg(test)]""", """        client
+    }
+
+    #[cfg(test)]""")]),
 ]
